@@ -58,7 +58,7 @@ def families(tier):
     # D: unknown is a target, allow-any policy, three labels
     cfgD = cfg_rec(T3, "ALLOW_ANY", "<<>>", fparams(T3, xmax="<<9,9,9>>", ymax="<<9,9,9>>", minPts="<<0,0,0>>"), cd="<<3,3,3>>", pd="<<3,3,5>>")
     critD = "{%s}" % fparams(T3, xmax="<<3,5,7>>", ymax="<<9,9,9>>")
-    pfD = "{[targets |-> %s, thr |-> <<3,3,3>>], [targets |-> %s, thr |-> <<3,3>>]}" % (T3, T2)
+    pfD = "{[targets |-> %s, thr |-> <<3,3,3>>], [targets |-> %s, thr |-> <<3,3>>], [targets |-> %s, thr |-> <<3,1,5>>]}" % (T3, T2, T3)
     fam["D_unknown_target"] = dict(base, CfgSet="{%s}" % cfgD, CritSet=critD, PfSet=pfD, GLabels='{"car","unknown","false_positive"}',
                                    Sample="2000" if big else "400")
     # E: three estimates x three ground truths (contested, ties) on the default configuration
@@ -200,7 +200,7 @@ def render_objects(frame, rendering, ego):
     if rendering.endswith(":derived"):
         e_, g_ = render_objects(frame, rendering.split(":")[0], ego)
         return [derive(o) for o in e_], [derive(o, 1) for o in g_]
-    fr = "map" if rendering == "map" else "base_link"
+    fr = "map" if rendering.startswith("map") else "base_link"
     ests, gts = [], []
     for i, e in enumerate(frame["ests"]):
         at, nm = attr_kwargs(e["attr"], e["label"])
@@ -214,6 +214,33 @@ def render_objects(frame, rendering, ego):
         o_.semantic_label.name = nm
         gts.append(o_)
     return ests, gts
+
+
+def looked_up_gt(gts, ego, time, name="0"):
+    """the ground truth of a map-frame scene the way an evaluation gets it from a loaded dataset by an interpolating time lookup: two loaded
+    frames around `time` (the ego drives and turns through `ego`, the objects stand still in the map), the earlier of which has been used by an
+    evaluation before (a map -> base_link query on its transforms, a look at the objects' geometry)"""
+    import copy
+
+    from perception_eval.common.dataset import get_interpolated_now_frame
+    from perception_eval.common.schema import FrameID
+
+    from ..build import EgoPose, frame_gt
+
+    frames = []
+    for sgn, t in ((-1, time - 100), (1, time + 100)):
+        e_ = EgoPose(ego.t[0] + sgn * 3.0, ego.t[1] - sgn * 2.0, ego.t[2], ego.yaw + sgn * 0.25)
+        objs = copy.deepcopy(list(gts))
+        for o in objs:
+            o.unix_time = t
+        frames.append(frame_gt(objs, time=t, name=name, ego=e_))
+    frames[0].transforms.transform((FrameID.MAP, FrameID.BASE_LINK), (1.0, 2.0, 0.0))
+    for o in frames[0].objects:
+        o.get_footprint(), o.get_corners()
+    out = get_interpolated_now_frame(frames, time, 150)
+    if out is None or out is frames[0] or out is frames[1]:
+        raise RuntimeError("harness: the lookup half way between two loaded frames did not interpolate")
+    return out
 
 
 def pairs(results):
@@ -336,19 +363,23 @@ def run_scene(cfg, frame, rendering, ego, stage_check=True):
     """one real execution -> (projection, stage projection)"""
     from ..build import frame_gt
 
-    mgr = manager_for(cfg, "map" if rendering == "map" else "base_link")
+    mgr = manager_for(cfg, "map" if rendering.startswith("map") else "base_link")
     crit, pfc = frame_configs(mgr, frame)
     stage = None
+
+    def ground_truth(gts_):
+        return looked_up_gt(gts_, ego, 1000) if rendering == "map:looked-up" else frame_gt(gts_, ego=ego)
+
     if stage_check:
         ests, gts = render_objects(frame, rendering, ego)
-        fgt = frame_gt(gts, ego=ego)
+        fgt = ground_truth(gts)
         res, fgt2 = mgr._filter_objects(ests, fgt)
         from ..build import vid
 
         stage = dict(rs=pairs(res), g1=sorted(vid(o) for o in fgt2.objects))
     ests, gts = render_objects(frame, rendering, ego)
     ests0 = list(ests)
-    fgt = frame_gt(gts, ego=ego)
+    fgt = ground_truth(gts)
     fr = mgr.add_frame_result(1000, fgt, ests, crit, pfc)
     pr = project_frame_result(fr)
     pr["caller_list_untouched"] = len(ests) == len(ests0) and all(a is b for a, b in zip(ests, ests0))
@@ -361,6 +392,12 @@ def replay_group(arg):
     out = []
     n = 0
     renders = [("base_link", _egos()[0])] + [("map", e) for e in _egos()] + [("base_link:derived", _egos()[0])]
+    import zlib
+
+    h = zlib.crc32(repr((sorted(frame.items()), sorted(cfg.items()))).encode())
+    if h % 2 == 0:
+        # the ground truth of the map scene obtained by an interpolating lookup on loaded frames (every second scene)
+        renders.append(("map:looked-up", _egos()[1 + (h // 2) % 2]))
     impls = []
     for rendering, ego in renders:
         n += 1
@@ -426,7 +463,7 @@ def run_pipeline(ctx: Ctx, want):
                 ctx.nontriv(json.dumps([c, f], sort_keys=True))
             for rendering, kind, fields, msg, rep in mism:
                 if want(rendering, kind, fields):
-                    ctx.violation("%s:%s:%s" % (kind, "map" if rendering == "map" else "ego", "+".join(fields)), msg, rep)
+                    ctx.violation("%s:%s:%s" % (kind, rendering.replace(":", "-") if rendering.startswith("map") else "ego", "+".join(fields)), msg, rep)
             yield c, f, specs, impls
         ctx.log("replayed %s: %d scenes x 3 renderings" % (name, len(items)))
         if items:
